@@ -437,7 +437,8 @@ var findings = []finding{
 	// nothing, here the pattern matches the empty string and X is inserted.
 	{"C21-replace-on-unset", func(s Sub) bool {
 		e := s.Exp
-		if e.Fam != "replace" || !strings.Contains(e.Arg, "*") || e.isList() {
+		// any pattern: a "*" can also come out of $g
+		if e.Fam != "replace" || e.isList() {
 			return false
 		}
 		_, set, ok := s.scalarValue(e)
